@@ -144,6 +144,9 @@ func main() {
 			all = append(all, &Obligation{Name: l.Name, Kind: "lemma", Func: "prelude", Text: l.Name, Raw: l.Body})
 		}
 	}
+	for _, l := range reg.lemmaVCs {
+		all = append(all, &Obligation{Name: l.Name, Kind: "lemma", Func: "prelude", Text: l.Name, Raw: l.Body})
+	}
 	dir := *keep
 	tmpDir := ""
 	if dir == "" {
